@@ -2,7 +2,7 @@
 import struct
 from fractions import Fraction
 
-MUS_CTRL = [None, None, 0x01, 0x07, 0x0A, 0x0B, 0x5B, 0x5D, 0x40, 0x43, 0x78, 0x7B, 0x7E, 0x7F, 0x79]
+MUS_CTRL = [None, 0x00, 0x01, 0x07, 0x0A, 0x0B, 0x5B, 0x5D, 0x40, 0x43, 0x78, 0x7B, 0x7E, 0x7F, 0x79]
 
 
 def mus_delay(n):
@@ -222,6 +222,8 @@ def xmi_reference(evs):
             out.append((tick, order, ("meta", a)))
         elif kind == "end":
             out.append((tick, order, ("end",)))
+            # a note still sounding at the end of the sequence gets no note-off of its own (the end of the song silences everything)
+            out = [x for x in out if x[0] <= tick]
     return out
 
 
